@@ -13,7 +13,7 @@ From CGV Require Import Base.PyBase Base.PyVal Base.PyGen Sample.GenSupport Gen.
      Sample.SampleDefs Sample.SampleSpec Sample.SampleProofs Sample.SampleTree Sample.SampleFragid Sample.SampleCopy Sample.SampleAccount
      Sample.SampleValid Sample.SampleExample.
 From CGV Require Base.NxGraph Resolve.GraphOps Resolve.SortProofs Sample.SampleFinal Sample.SampleNumbering.
-From CGV Require Hydro.Hydrogens Hydro.HydroDefs Hydro.SquashDefs Hydro.RebuildProofs Sample.SampleValence.
+From CGV Require Hydro.Hydrogens Hydro.HydroDefs Hydro.SquashDefs Hydro.RebuildProofs Sample.SampleValence Sample.SampleSorted.
 Import ListNotations.
 Open Scope Z_scope.
 
@@ -140,6 +140,42 @@ Section C16.
                                    Hydrogens.sum_orders (NxGraph.nadj n') = Ok (2 * v - 1)))).
   Proof. exact (SampleValence.sample_valence_complete M c0 madd mltb misz R pick cfg Wf). Qed.
 
+  (** template attribute lists as read_fragments returns them: dicts without 'fragid' / 'bonding'
+      (own fields of the template nodes) and without 'rs_isomer'; checked on every case of the run *)
+  Hypothesis Ha : frags_attrs_ok (c_frags cfg).
+
+  (** numbering_canonical WITHOUT side conditions, coarse and all-atom, for every run and every
+      aromaticity transcript: the graph the sampler sorts is well formed and every node carries
+      'fragid' (all-atom: Dialect/ReturnedCar.contract_car_ok transfers the replay's structure and
+      attributes to the transcript, Compose/RebuildWf.rebuild_wf keeps the completed graph well
+      formed, every added hydrogen inherits its anchor's fragid) *)
+  Theorem C16_sample_numbering_total : forall target fuel rng start nm i0 m cw log rng' aa car gf,
+    sample_growth M c0 madd mltb misz R pick cfg target fuel rng start = Ok (nm, i0, m, cw, log, rng') ->
+    SampleFinal.finalise_nx aa (SampleFinal.to_nx m) car = Ok gf ->
+    exists g1 ks, (if aa then Hydrogens.rebuild_h_atoms_default (SampleFinal.to_nx m) car else Ok (SampleFinal.to_nx m)) = Ok g1 /\
+      GraphOps.sort_items g1 = Ok ks /\ map snd ks = NxGraph.node_keys g1 /\
+      Sorted.StronglySorted SortProofs.key_lt (GraphOps.isort ks) /\ Permutation.Permutation (GraphOps.isort ks) ks /\
+      map (NxGraph.map_get (GraphOps.mapping_of (GraphOps.isort ks))) (map snd (GraphOps.isort ks)) = map Z.of_nat (seq 0 (length g1)) /\
+      NxGraph.node_keys gf = map (NxGraph.map_get (GraphOps.mapping_of (GraphOps.isort ks))) (NxGraph.node_keys g1) /\
+      Permutation.Permutation (NxGraph.node_keys gf) (map Z.of_nat (seq 0 (length g1))).
+  Proof. exact (SampleSorted.sample_numbering_total M c0 madd mltb misz R pick cfg Wf Ha). Qed.
+  (** ... and valence completeness of all-atom samples without a hypothesis on the transcript *)
+  Theorem C16_sample_valence_total : forall target fuel rng start nm i0 m cw log rng' car g',
+    sample_growth M c0 madd mltb misz R pick cfg target fuel rng start = Ok (nm, i0, m, cw, log, rng') ->
+    Hydrogens.rebuild_h_atoms_default (SampleFinal.to_nx m) car = Ok g' ->
+    exists g1, car = Some g1 /\
+      forall k n, NxGraph.gfind k g1 = Some n -> Hydrogens.is_H (NxGraph.na n) = false ->
+        exists val b idxs n', Hydrogens.valence_of (NxGraph.na n) = Ok val /\ Hydrogens.sum_orders (NxGraph.nadj n) = Ok b /\
+          NxGraph.gfind k g' = Some n' /\
+          NxGraph.nadj n' = NxGraph.nadj n ++ map (fun j => (j, Hydrogens.h_edge_attrs)) idxs /\
+          (forall j, In j idxs -> exists h, NxGraph.gfind j g' = Some h /\ NxGraph.nadj h = [(k, Hydrogens.h_edge_attrs)] /\
+                                            Hydrogens.is_H (NxGraph.na h) = true) /\
+          (HydroDefs.fits val b -> exists v, HydroDefs.least_fitting val b v /\
+             (Z.even b = true -> 2 * Z.of_nat (length idxs) = 2 * v - b /\ Hydrogens.sum_orders (NxGraph.nadj n') = Ok (2 * v)) /\
+             (Z.even b = false -> 2 * Z.of_nat (length idxs) = 2 * v - b - 1 /\
+                                  Hydrogens.sum_orders (NxGraph.nadj n') = Ok (2 * v - 1))).
+  Proof. exact (SampleSorted.sample_valence_total M c0 madd mltb misz R pick cfg Wf Ha). Qed.
+
   (** descriptor_once: per node and descriptor, occurrences still on the node plus occurrences
       consumed by bonds never increase along a step for old nodes, and start at what the template
       wrote for the nodes of the new copy: no written descriptor is used twice *)
@@ -176,11 +212,11 @@ Proof. exact SampleNumbering.sample_numbering_canonical. Qed.
 (** non-vacuity: a valid run of six growth steps (two fragments, '>'/'<' and labelled '$'
     descriptors, a zero conditional reactivity, a terminal descriptor) *)
 Example C16_nonvacuous :
-  wf_frags ex_frags /\ Forall (fun ft => tpl_connected (snd ft)) ex_frags /\
+  frags_attrs_okb ex_frags = true /\ wf_frags ex_frags /\ Forall (fun ft => tpl_connected (snd ft)) ex_frags /\
   exists cfg nm i0 m cw log r, ex_cfg = Ok cfg /\ ex_run = Ok (nm, i0, m, cw, log, r) /\ length log = 6%nat /\
     length (m_nodes m) = 11%nat /\ frag_count m = 7%nat /\ length (inter_bonds m) = 6%nat.
 Proof.
-  split; [|split].
+  split; [reflexivity|]. split; [|split].
   - repeat constructor; cbn; try (intros [H|H]; try discriminate; try contradiction); try tauto; try discriminate;
       intuition discriminate.
   - repeat constructor; intros a b Ha Hb; cbn in Ha, Hb.
@@ -211,6 +247,8 @@ Print Assumptions C16_tree_of_fragments_membership.
 Print Assumptions C16_choice_valid_draw.
 Print Assumptions C16_valid_draw_accepted.
 Print Assumptions C16_descriptor_once.
+Print Assumptions C16_sample_numbering_total.
+Print Assumptions C16_sample_valence_total.
 Print Assumptions C16_sample_graph_wf.
 Print Assumptions C16_sample_valence_complete.
 Print Assumptions C16_copy_iso_template.
